@@ -2,6 +2,7 @@
 order OPEN, CLOSE, CLEAR, each iff its field is set, by a function that reads only (entries, options, open, close,
 clear) and writes nothing; update() returns a copy and leaves the connection's table untouched.
 Balance preservation itself is a theorem about beancount.ops.summarize (assumed; bounded evidence in h13)."""
+import datetime
 from pyvc.spec import *
 
 QE = 'beanquery.query_env'
@@ -37,3 +38,89 @@ class table_prepare:
         e3 = e2 if self.clear is None else ext('beancount.ops.summarize.clear_opt')(e2, None, self.options)[0]
         return result == e3
     ensures = [('open-then-close-then-clear-each-iff-set', _post)]
+
+
+# ---- the FROM clause selects and qualifies the table (C13, C05, C08) ------------------------------------------------------
+CP = 'beanquery.compiler'
+FCOMPILER = Obj(f'{CP}:Compiler', fields=dict(table=Opaque('table'), context=Opaque('conn'), parameters=Dyn(), depth=Int(0), subquery=Bool()))
+FROM = Rec('From', attrs=dict(expression=Dyn(), open=Opt(DateS()), close=Union(NoneS(), DateS(), Const(True)), clear=Union(NoneS(), Const(True))),
+           isa='beanquery.parser.ast:From')
+
+
+@spec(uninterpreted=True, sig=(['val'], 'val'))
+def compiled_expr(node):
+    raise NotImplementedError
+
+
+@spec(uninterpreted=True, sig=(['val'], 'seq'))
+def aggregates_in(c_expr):
+    raise NotImplementedError
+
+
+class _compile_expr_assumed:
+    kind = 'assumed'
+    params = {'self': FCOMPILER, 'node': Dyn()}
+    result = Dyn(('none', 'obj'))
+    modifies = []
+    raises = {'CompilationError': None}
+    ensures = [('deterministic', lambda node, result: result == compiled_expr(node))]
+
+
+class _is_aggregate_assumed13:
+    kind = 'assumed'
+    params = {'node': Opaque('node')}
+    result = Bool()
+    ensures = [('has-aggregates', lambda node, result: result == (len(aggregates_in(node)) > 0))]
+
+
+FCALLEES = {f'{CP}:Compiler._compile': Contract(f'{CP}:Compiler._compile', _compile_expr_assumed, 'from'),
+            f'{CP}:is_aggregate': Contract(f'{CP}:is_aggregate', _is_aggregate_assumed13, 'from')}
+
+
+@contract(f'{CP}:Compiler._compile_from', 'from-expression')
+class compile_from_expression:
+    """FROM <expression> [OPEN ON d] [CLOSE [ON d]] [CLEAR]: the statement's table becomes the current table qualified with exactly the
+    written qualifiers (absent ones as None), the row filter is the compiled expression; an OPEN date after the CLOSE date and an
+    aggregate in the expression are rejected"""
+    props = ['C13', 'C05']
+    params = {'self': FCOMPILER, 'node': FROM}
+    callees = FCALLEES
+    method_results = {'update': Opaque('table')}
+    modifies = ['self.table']
+    native = False
+    assumes = ['ATTRS_PRESENT', 'METHODS_PRESENT', 'Table.update is a pure function of the table and its keyword arguments (BeanTable.update: own contract above)']
+    raises = {'CompilationError': None}
+    ensures = [
+        ('table-qualified-with-exactly-the-written-qualifiers', lambda old, self, node:
+            self.table == old.self.table.update(open=node.open, close=node.close, clear=node.clear)),
+        ('row-filter-is-the-compiled-expression', lambda node, result: result == compiled_expr(node.expression)),
+        ('open-not-after-close', lambda node: node.open is None or not isinstance(node.close, datetime.date) or not (node.open > node.close)),
+        ('no-aggregate-in-from', lambda node: compiled_expr(node.expression) is None or len(aggregates_in(compiled_expr(node.expression))) == 0),
+    ]
+
+
+@contract(f'{CP}:Compiler._compile_from', 'absent')
+class compile_from_absent:
+    props = ['C13', 'C05']
+    params = {'self': FCOMPILER, 'node': NoneS()}
+    callees = FCALLEES
+    modifies = []
+    native = False
+    ensures = [('no-clause-no-filter-table-unchanged', lambda result: result is None)]
+
+
+TCOMPILER = Obj(f'{CP}:Compiler', fields=dict(table=Opaque('table'), context=Rec('conn', attrs=dict(tables=Opaque('tables'))), parameters=Dyn(), depth=Int(0), subquery=Bool()))
+
+
+@contract(f'{CP}:Compiler._compile_from', 'table')
+class compile_from_table:
+    """FROM #name: the statement's table is the connection's table of that name; an unknown name is rejected; there is no row filter"""
+    props = ['C13', 'C05', 'C08']
+    params = {'self': TCOMPILER, 'node': Rec('Table', attrs=dict(name=Opaque('name')), isa='beanquery.parser.ast:Table')}
+    callees = FCALLEES
+    modifies = ['self.table']
+    native = False
+    assumes = ['ATTRS_PRESENT', 'METHODS_PRESENT', 'the table registry is a mapping: tables.get(name) is a pure lookup']
+    raises = {'CompilationError': lambda old, node: old.self.context.tables.get(node.name) is None}
+    ensures = [('the-named-table-of-the-connection', lambda self, node: self.table == self.context.tables.get(node.name) and self.table is not None),
+               ('no-row-filter', lambda result: result is None)]
